@@ -87,6 +87,13 @@ func (r *Parser) Next(f *Field) bool {
 // Err returns the last read error. At the end of input
 // it will always be equal to io.EOF.
 func (r *Parser) Err() error {
+	// A read error takes precedence: the input did not end, it failed,
+	// even if that left an incomplete field behind.
+	if r.inputScanner != nil {
+		if err := r.inputScanner.Err(); err != nil {
+			return err
+		}
+	}
 	if err := r.fieldScanner.Err(); err != nil {
 		return err
 	}
